@@ -1,5 +1,5 @@
 From Coq Require Import ExtrOcamlBasic.
-From ChibiV Require Import Common.ExtractBase C18.Spec C18.Model C18.Oracle C18.SpecCont C18.ISet C18.Deque C18.RaList.
+From ChibiV Require Import Common.ExtractBase C18.Spec C18.Model C18.Oracle C18.SpecCont C18.ISet C18.Deque C18.RaList C18.RBDefs C18.RBTree C18.LQueue C18.ISetInter.
 Extraction "model.ml" ext_base spec_sort spec_merge spec_sorted spec_select spec_dedup
   model_sort_less model_sort_basic model_merge95 model_vmerge132 model_scratch_less
   set_mem set_adjoin set_delete set_union set_of_list set_inter set_diff set_xor set_subset set_equal set_disjoint
@@ -17,4 +17,7 @@ Extraction "model.ml" ext_base spec_sort spec_merge spec_sorted spec_select spec
   dq_find_right dq_take_while dq_take_while_right dq_drop_while dq_drop_while_right dq_span dq_break dq_any dq_every dq_drain dq_equal
   span_list break_list filter_map_list remove_list count_list list_eq take_right_list
   ra_cons ra_car_cdr ra_car ra_cdr ra_list_ref ra_list_ref_update ra_list_set ra_of_list ra_largest_skew_binary ra_make_list ra_length
-  ra_to_list ra_flat ra_append ra_reverse ra_list_tail ra_map ra_map2 ra_map3 ra_for_each2 ra_equal ra_sizes.
+  ra_to_list ra_flat ra_append ra_reverse ra_list_tail ra_map ra_map2 ra_map3 ra_for_each2 ra_equal ra_sizes
+  make_tree mapping_set mapping_adjoin mapping_replace mapping_delete mapping_delete_all mapping_update mapping_union mapping_intersection
+  mapping_difference mapping_xor mapping_filter mapping_ref mapping_contains mapping_size mapping_keys mapping_empty mapping_to_alist tree_fold
+  lqs_init lqs_run intersection2 difference2.
